@@ -1520,7 +1520,7 @@ def gen_build_case(r, errors=False, multi_phase=False):
         rxt.append(str(np_ + len(tb_p)))
         for n in ps: rxt += [n, "0", hexd(r.pick([1.0, 0.5, 2.0]))]; used.add(n)
         for n in tb_p: rxt += [n, "1", hexd(1.0)]
-    hasSys = 0 if (errors and r.chance(0.08)) else 1
+    hasSys = 0 if (errors and r.chance(0.08)) else (2 if r.chance(0.25) else 1)     # 2: the builder held another system before
     hasRx = r.pick([0, 2]) if (errors and r.chance(0.12)) else 1
     ignoreUnused = 1 if not errors else r.below(2)
     reorder = r.below(2)
